@@ -618,6 +618,9 @@ func (fc *FuncCtx) enterLoop(li *loopInfo, st *State, reach string) *State {
 		g := fc.evalBool(env, inv.E)
 		fc.oblige(fmt.Sprintf("%s/inv%d/init", fc.loopName(li), j), "inv", reach, g, token.NoPos, inv.Text)
 	}
+	if g := fc.autoRangeInv(li, st); g != "" {
+		fc.oblige(fmt.Sprintf("%s/rangeinv/init", fc.loopName(li)), "inv", reach, g, token.NoPos, "-1 <= rangeindex && (rangeindex < len || rangeindex == -1) (default invariant of a range loop)")
+	}
 	// 2. discover the set of components the body may write
 	if li.modset == nil {
 		li.modset = fc.discover(li, st, reach)
@@ -647,6 +650,9 @@ func (fc *FuncCtx) enterLoop(li *loopInfo, st *State, reach string) *State {
 	for _, inv := range li.Spec.Invariants {
 		fc.assume(reach, fc.evalBool(env2, inv.E))
 	}
+	if g := fc.autoRangeInv(li, hs); g != "" {
+		fc.assume(reach, g)
+	}
 	li.headSt = hs.clone()
 	fc.probe(fmt.Sprintf("vacuity/%s-head-reachable", fc.loopName(li)), reach)
 	if li.Spec.Decreases != nil {
@@ -654,6 +660,57 @@ func (fc *FuncCtx) enterLoop(li *loopInfo, st *State, reach string) *State {
 		li.variant = fc.define("Int", v, "variant")
 	}
 	return hs
+}
+
+// rangeBounds recognises the header of a `for i := range s` loop over a slice, array or
+// string in naive-form SSA (rangeindex starts at -1, is incremented and compared with a
+// length computed before the loop) and returns the index variable and the length.
+func rangeBounds(h *ssa.BasicBlock) (*ssa.Alloc, ssa.Value) {
+	for _, ins := range h.Instrs {
+		b, ok := ins.(*ssa.BinOp)
+		if !ok || b.Op != token.LSS {
+			continue
+		}
+		add, ok := b.X.(*ssa.BinOp)
+		if !ok || add.Op != token.ADD {
+			continue
+		}
+		ld, ok := add.X.(*ssa.UnOp)
+		if !ok || ld.Op != token.MUL {
+			continue
+		}
+		a, ok := ld.X.(*ssa.Alloc)
+		if !ok || a.Comment != "rangeindex" {
+			continue
+		}
+		if c, ok := add.Y.(*ssa.Const); !ok || c.Value == nil || c.Value.ExactString() != "1" {
+			continue
+		}
+		if b.Y.Parent() == nil || b.Y.(ssa.Instruction).Block() == h {
+			continue
+		}
+		return a, b.Y
+	}
+	return nil, nil
+}
+
+// autoRangeInv is the default invariant of a range loop: -1 <= rangeindex <= len-1. It is
+// proved like a written invariant (on entry and at every back edge), then assumed.
+func (fc *FuncCtx) autoRangeInv(li *loopInfo, st *State) string {
+	a, n := rangeBounds(li.Header)
+	if a == nil || fc.escaping[a] {
+		return ""
+	}
+	nv, ok := fc.vals[n]
+	if !ok || nv.T == "" {
+		return ""
+	}
+	key := cellKey(a)
+	if _, ok := fc.compSort[key]; !ok {
+		return ""
+	}
+	ri := fc.get(st, key)
+	return "(and (<= (- 1) " + ri + ") (or (< " + ri + " " + nv.T + ") (= " + ri + " (- 1))))"
 }
 
 // discover runs the loop body once in a sandbox to learn which components it writes.
@@ -728,6 +785,9 @@ func (fc *FuncCtx) backEdge(from *ssa.BasicBlock, li *loopInfo, st *State, cond 
 	for j, inv := range li.Spec.Invariants {
 		g := fc.evalBool(env, inv.E)
 		fc.oblige(fmt.Sprintf("%s/inv%d/preserved%s", fc.loopName(li), j, suffix), "inv", cond, g, token.NoPos, inv.Text)
+	}
+	if g := fc.autoRangeInv(li, st); g != "" {
+		fc.oblige(fmt.Sprintf("%s/rangeinv/preserved%s", fc.loopName(li), suffix), "inv", cond, g, token.NoPos, "-1 <= rangeindex && (rangeindex < len || rangeindex == -1) (default invariant of a range loop)")
 	}
 	if li.Spec.Decreases != nil {
 		v := fc.evalInt(env, li.Spec.Decreases.E)
